@@ -191,7 +191,10 @@ func init() {
 		Plan: func(tier string) []Batch {
 			b := same(n(tier, 2, 8), Batch{Mode: "hook", Timeout: 20 * time.Minute})
 			b = append(b, same(n(tier, 2, 6), Batch{Mode: "loopback", Timeout: 30 * time.Minute, Procs: 8})...)
-			return append(b, same(n(tier, 2, 4), Batch{Mode: "netns", Netns: true, Timeout: 30 * time.Minute, Procs: 4})...)
+			b = append(b, same(n(tier, 2, 4), Batch{Mode: "netns", Netns: true, Timeout: 30 * time.Minute, Procs: 4})...)
+			// "a connected UDP socket by default": what another host sends to the request's source port is not the controller's reply
+			// (the decoy cases of C03's loopback layer)
+			return append(b, Batch{Mode: "loopback", RunAs: "C03", Keys: []string{"foreign-content", "panic"}, Timeout: 20 * time.Minute, Procs: 8})
 		}}
 }
 
